@@ -351,6 +351,7 @@ def run_check(prop, module, tier, seed):
     for o in obs:
         if o.kind == 'ch' and o.replay is None:
             o.replay = default_ch_replay(o)
+            o.default_replay = True
     byname = {o.name: o for o in obs}
     lines = []
     exit_code = EXIT_OK
@@ -364,6 +365,7 @@ def run_check(prop, module, tier, seed):
     for o in allobs.values():
         if o.kind == 'ch' and o.replay is None:
             o.replay = default_ch_replay(o)
+            o.default_replay = True
     for e in known:
         if e.get('status') != 'known':
             continue
@@ -433,7 +435,10 @@ def run_check(prop, module, tier, seed):
                         key = o.classify(model)
                     except Exception:
                         key = None
-                if key is not None and key in active:
+                # A CrossHair counterexample that was found AND replayed by the harness function itself while the known findings were
+                # switched off inside that harness (VERIF_EXCLUDE) cannot be one of them: classification is then only informative.
+                # It decides only where the replay compares with the strict oracle (SMT obligations with their own replay function).
+                if key is not None and key in active and not getattr(o, 'default_replay', False):
                     status = 'known finding %s re-found' % key
                     nontrivial += 1
                 else:
